@@ -5609,6 +5609,16 @@ impl PeerConnectionInner {
         if let Some(sctp) = self.sctp_transport.lock().take() {
             sctp.close();
         }
+        // Channels created before an SCTP association existed are not reached by the
+        // association's cleanup: close them here so a pending `DataChannel::recv()`
+        // returns instead of waiting forever. (No-op for channels already Closed.)
+        for dc in self.data_channels.lock().iter().filter_map(|w| w.upgrade()) {
+            let closed = crate::transports::sctp::DataChannelState::Closed as usize;
+            if dc.state.swap(closed, Ordering::SeqCst) != closed {
+                dc.send_event(crate::transports::sctp::DataChannelEvent::Close);
+                dc.close_channel();
+            }
+        }
 
         if let Some(dtls) = self.dtls_transport.lock().as_ref() {
             dtls.close();
